@@ -10,7 +10,7 @@ GLOBAL_PATHS = ["device", "fft", "precision", "dask.lazy", "dask.chunk-size", "d
                 "fftw.threads", "fftw.planning_effort", "fftw.planning-effort", "mkl.threads", "antialias.cutoff",
                 "visualize.cmap", "visualize.use_tex", "warnings.overspecified-grid", "warnings.overspecified_grid",
                 "diagnostics.progress_bar", "verif_new", "verif_new.sub", "verif-new.sub.leaf", "dask.verif_extra",
-                "device.x", "fftw.threads.deep", "precision.p.q", "dask", "fftw"]
+                "device.x", "fftw.threads.deep", "precision.p.q", "dask", "fftw", "verif_new.a.b.c.d", "dask.verif.deep.er.still"]
 
 
 class UserError(RuntimeError):
@@ -27,6 +27,11 @@ def gen_val(rng, depth, leaf_bias=0.7):
 def gen_dict(rng, depth, n):
     ks = rng.sample(KEYS, min(n, len(KEYS)))
     return {k: gen_val(rng, depth, 0.5) for k in ks}
+
+
+def gen_cfg(rng):
+    """configuration trees up to depth 5 (key paths of assignments go as deep)"""
+    return gen_dict(rng, rng.choice([2, 3, 3, 4, 5]), rng.randint(0, 5))
 
 
 def enc_val(v):
@@ -66,7 +71,7 @@ def ordered(v):
 # ------------------------------------------------------------------ scripts
 def gen_keystr(rng, cfg, kw):
     """a dotted key string, biased towards paths that exist in cfg"""
-    n = rng.choice([1, 1, 2, 2, 3])
+    n = rng.choice([1, 1, 2, 2, 3, 4, 5])
     parts, d = [], cfg
     for _ in range(n):
         if isinstance(d, dict) and d and rng.random() < 0.65:
@@ -105,6 +110,9 @@ def gen_script(rng, cfg, depth, pokes):
     if r < 0.52:
         return ["try", gen_script(rng, cfg, depth - 1, pokes)]
     a, k, use_arg = gen_assigns(rng, cfg)
+    if rng.random() < 0.15:   # one set object entered again inside its own block
+        return ["reenter", a + k, use_arg, ["seq", ["snap"], gen_script(rng, cfg, depth - 1, pokes)],
+                ["seq", ["snap"], gen_script(rng, cfg, max(depth - 2, 0), pokes)]]
     return ["with", a + k, use_arg, ["seq", ["snap"], gen_script(rng, cfg, depth - 1, pokes)]]
 
 
@@ -121,13 +129,14 @@ def enc_script(s):
     if k == "try":
         return f"try {enc_script(s[1])}"
     assigns = s[1]
-    return " ".join([f"with {len(assigns)}"] + [f"A:{'T' if kw else 'F'}:{ks} {enc_val(v)}" for kw, ks, v in assigns]
-                    + [enc_script(s[3])])
+    head = "reenter" if k == "reenter" else "with"
+    return " ".join([f"{head} {len(assigns)}"] + [f"A:{'T' if kw else 'F'}:{ks} {enc_val(v)}" for kw, ks, v in assigns]
+                    + [enc_script(x) for x in s[3:]])
 
 
 def has_with(s):
-    return s[0] == "with" and len(s[1]) > 0 or any(has_with(x) for x in s[1:] if isinstance(x, list) and x and isinstance(x[0], str)
-                                                    and x[0] in ("seq", "try", "with", "snap", "raise", "poke", "del"))
+    return s[0] in ("with", "reenter") and len(s[1]) > 0 or any(has_with(x) for x in s[1:] if isinstance(x, list) and x and isinstance(x[0], str)
+                                                    and x[0] in ("seq", "try", "with", "reenter", "snap", "raise", "poke", "del"))
 
 
 class Runner:
@@ -141,6 +150,8 @@ class Runner:
         self.log = []
         self.init_failures = 0
         self.init_dirty = []  # (before, after) of a raising constructor that changed the configuration
+        self.ctx_dirty = []   # (which, before, after): a context whose exit did not give back the configuration it found
+        self.track_contexts = True
 
     def run(self, s):
         k = s[0]
@@ -174,8 +185,39 @@ class Runner:
                 if ordered(self.cfg) != ordered(before):
                     self.init_dirty.append([before, copy.deepcopy(self.cfg)])
                 raise
-            with ctxm:
-                self.run(s[3])
+            try:
+                with ctxm:
+                    self.run(s[3])
+            finally:   # per context, not only for the whole script: left normally or through an exception
+                if self.track_contexts and ordered(self.cfg) != ordered(before):
+                    self.ctx_dirty.append(["with", before, copy.deepcopy(self.cfg)])
+        elif k == "reenter":
+            arg = {ks: copy.deepcopy(v) for kw, ks, v in s[1] if not kw}
+            kwargs = {ks: copy.deepcopy(v) for kw, ks, v in s[1] if kw}
+            before = copy.deepcopy(self.cfg)
+            try:
+                if self.use_global:
+                    ctxm = self.C.set(arg if s[2] else None, **kwargs)
+                else:
+                    ctxm = self.C.set(arg if s[2] else None, config=self.cfg, **kwargs)
+            except Exception:
+                self.init_failures += 1
+                if ordered(self.cfg) != ordered(before):
+                    self.init_dirty.append([before, copy.deepcopy(self.cfg)])
+                raise
+            try:
+                with ctxm:
+                    inner_before = copy.deepcopy(self.cfg)
+                    try:
+                        with ctxm:
+                            self.run(s[3])
+                    finally:
+                        if self.track_contexts and ordered(self.cfg) != ordered(inner_before):
+                            self.ctx_dirty.append(["reentered-inner", inner_before, copy.deepcopy(self.cfg)])
+                    self.run(s[4])
+            finally:
+                if self.track_contexts and ordered(self.cfg) != ordered(before):
+                    self.ctx_dirty.append(["reentered-outer", before, copy.deepcopy(self.cfg)])
         else:
             raise ValueError(k)
 
@@ -252,6 +294,7 @@ class C34(Property):
         s = object.__new__(C.set)
         s.config = d
         s._record = [(op, tuple(path), copy.deepcopy(old))]
+        s._depth = 0   # not inside a `with` block of this object (as in the constructor's own rollback)
         try:
             s.__exit__(None, None, None)
         except Exception as e:  # noqa
@@ -264,7 +307,7 @@ class C34(Property):
         lines, jobs = [], []
         # 1. scripts, well behaved and with direct writes
         for i in range(ctx.n(500, 8000)):
-            cfg = gen_dict(rng, 3, rng.randint(0, 5))
+            cfg = gen_cfg(rng)
             pokes = i % 4 == 3
             sc = gen_script(rng, cfg, rng.randint(1, 5), pokes)
             lines.append(f"run {enc_val(cfg)} {enc_script(sc)}")
@@ -342,11 +385,15 @@ class C34(Property):
             except Exception as e:  # noqa
                 out = "err:" + err_kind(e)
             after = copy.deepcopy(cfg)
-            snaps_equal_when_closed = True
             if r.init_dirty:
                 ctx.violation("failed-set-leaves-earlier-assignments-applied", case,
                               {"what": "a `set(...)` whose constructor raised changed the configuration",
                                "before": r.init_dirty[0][0], "after": r.init_dirty[0][1]})
+            elif r.ctx_dirty:
+                which = r.ctx_dirty[0][0]
+                ctx.violation({"with": "set-context-not-restored-at-its-own-exit", "reentered-inner": "reentered-set-context-not-restored",
+                               "reentered-outer": "set-context-not-restored-at-its-own-exit"}[which], case,
+                              {"which": which, "before": r.ctx_dirty[0][1], "after": r.ctx_dirty[0][2], "outcome": out})
             elif after != before or ordered(after) != ordered(before):
                 how = "exception" if out != "ok" else "normal"
                 ctx.violation(f"set-context-not-restored-{how}-exit", case,
@@ -378,10 +425,12 @@ class C34(Property):
                     kw = rng.random() < 0.3
                     p = rng.choice(GLOBAL_PATHS)
                     assigns[(kw, p.replace(".", "__") if kw else p)] = gen_val(rng, 1)
-                return ["with", [[kw, k, v] for (kw, k), v in assigns.items() if not kw]
-                        + [[kw, k, v] for (kw, k), v in assigns.items() if kw], True, ["seq", ["snap"], gs(depth - 1)]]
+                al = [[kw, k, v] for (kw, k), v in assigns.items() if not kw] + [[kw, k, v] for (kw, k), v in assigns.items() if kw]
+                if rng.random() < 0.15:
+                    return ["reenter", al, True, ["seq", ["snap"], gs(depth - 1)], gs(max(depth - 2, 0))]
+                return ["with", al, True, ["seq", ["snap"], gs(depth - 1)]]
             return {"target": "global", "cfg": None, "script": gs(rng.randint(1, 4))}
-        cfg = gen_dict(rng, 3, rng.randint(0, 5))
+        cfg = gen_cfg(rng)
         case = {"target": "scratch", "cfg": cfg, "script": gen_script(rng, cfg, rng.randint(1, 5), False)}
         dks = [k for k, v in cfg.items() if isinstance(v, dict)]
         if dks and rng.random() < 0.2:
